@@ -217,12 +217,13 @@ def _search_curves(ctx):
     from props import c20_curve as CC
     full = (not ctx.quick()) or bool(ctx.brokens)
     summ = {}
-    for cname in ("p23h4", "p211", "p2003", "P-256"):
-        nparams = ctx.budget(2, 4) if cname != "P-256" else ctx.budget(1, 2)
+    for cname in ("p23h4", "p211", "p2003", "P-256", "Ed25519", "Ed448"):
+        edw = cname.startswith("Ed")
+        nparams = ctx.budget(2, 4) if cname not in ("P-256", "Ed25519", "Ed448") else ctx.budget(1, 2)
         for j in range(nparams):
             params = CC.gen_params(ctx.rng, cname)
-            for sc in ("table", "scale", "to_affine", "verify"):
-                deep = full and cname != "P-256"
+            for sc in (("ed-table", "ed-scale", "ed-mul") if edw else ("table", "scale", "to_affine", "verify")):
+                deep = full and cname not in ("P-256", "Ed25519", "Ed448")
                 try:
                     exp = CC.expected(cname, params, sc)
                 except Exception as e:   # noqa
@@ -234,7 +235,7 @@ def _search_curves(ctx):
                              "results of sequential operations depend on their order: %r" % {k: exp[1][k] for k in od})
                     continue
                 n = CC.run_schedule(cname, params, sc, None, deep)[0]
-                pts = _points(ctx, n, full and (cname != "P-256" or sc != "verify" or ctx.tier == "thorough"))
+                pts = _points(ctx, n, full and not edw and (cname != "P-256" or sc != "verify" or ctx.tier == "thorough"))
                 nbad = 0
                 for pt in pts:
                     bad = CC.check_point(cname, params, sc, pt, exp, deep, rotate=pt + j)
